@@ -147,61 +147,105 @@ def panic_w0(drv, be):
 
 
 # ------------------------------------------------------------------------------------------ layer 2
-def view_opt(view, n, small, k=""):
-    S = [f"let x{k} = opt_data::<{n}>({str(small).lower()});"]
-    if view == "vec":
-        S.append(f"let v{k}: Vec<Option<i32>> = x{k}.to_vec();")
+# views: arr = [T; N] (same fast-path text as Vec — `impl_vec1!(view ...)` — without a heap object: 3x cheaper for
+# CBMC; get_unchecked is seen by Kani's pointer checks), vec = Vec<T> (thorough tier), dv = util::DefView.
+def view_opt(view, n, small):
+    S = [f"let x = opt_data::<{n}>({str(small).lower()});"]
+    if view == "vec" or (n == 0 and view != "dv"):
+        S.append("let v: Vec<Option<i32>> = x.to_vec();")
+    elif view == "arr":
+        S.append("let v = x;")
+    elif n == 0:   # a zero-length stack array is not a pointer CBMC reasons about: heap-backed empty slice
+        S += ["let sx: Vec<Option<i32>> = x.to_vec();", "let v = DefView(&sx[..]);"]
     else:
-        S.append(f"let v{k} = DefView(&x{k}[..]);")
+        S.append("let v = DefView(&x[..]);")
     return S
 
 
 def view_f64(view, n):
-    S = [f"let a = f64_data::<{n}>();", f"let b = f64_data::<{n}>();"]
-    if view == "vec":
+    S = [f"let a = f64_fixed::<{n}>(1);", f"let b = f64_fixed::<{n}>(2);"]
+    if view == "vec" or (n == 0 and view != "dv"):
         S += ["let va: Vec<f64> = a.to_vec();", "let vb: Vec<f64> = b.to_vec();"]
+    elif view == "arr":
+        S += ["let va = a;", "let vb = b;"]
+    elif n == 0:
+        S += ["let sa: Vec<f64> = a.to_vec();", "let sb: Vec<f64> = b.to_vec();", "let va = DefView(&sa[..]);", "let vb = DefView(&sb[..]);"]
     else:
         S += ["let va = DefView(&a[..]);", "let vb = DefView(&b[..]);"]
     return S
 
 
-def cmp_h(view, nl, thorough=False):
-    B = []
+CMP = {"vmin": "k_vmin", "vmax": "k_vmax", "vargmin": "k_vargmin", "vargmax": "k_vargmax", "tsrank": "k_tsrank"}
+
+
+def cmp_h(kernel, view, nl, thorough=False):
+    B = ["let (mut short, mut some_mp) = (false, false);"]
     for n in nl:
         B.append("{")
         B += ["    " + s for s in view_opt(view, n, False)]
-        B.append(f"    cmp_all::<_, {n}>(&v, 1);")
-        B.append(f"    k_tsrank::<_, {n}>(&v, any_window::<{n}>(1), any_mp::<{n}>());")
+        B.append(f"    let (w, mp) = (any_window::<{n}>(1), any_mp::<{n}>());")
+        B.append(f"    {CMP[kernel]}::<_, {n}>(&v, w, mp);")
+        B.append(f"    short |= w < {n};")
+        B.append("    some_mp |= mp.is_some();")
         B.append("}")
-    add(f"c10_cmp_{view}_{ns(nl)}", B, max(nl) + 4, thorough)
+    if max(nl) >= 2:
+        B.append('kani::cover!(short, "window shorter than the series");')
+    B.append('kani::cover!(some_mp, "explicit min_periods");')
+    add(f"c10_cmp_{kernel}_{view}_{ns(nl)}", B, max(nl) + 4, thorough)
 
 
-def num_h(view, nl, thorough=False):
+def minmaxnorm_h(view, nl, thorough=False):
     B = []
     for n in nl:
         B.append("{")
         B += ["    " + s for s in view_opt(view, n, True)]
         B.append(f"    k_minmaxnorm::<_, {n}>(&v, any_window::<{n}>(1), any_mp::<{n}>());")
-        B += ["    " + s for s in view_f64(view, n)]
-        B.append(f"    num_all::<_, _, {n}>(&va, &vb, 1);")
         B.append("}")
-    add(f"c10_num_{view}_{ns(nl)}", B, max(nl) + 4, thorough)
+    add(f"c10_minmaxnorm_{view}_{ns(nl)}", B, max(nl) + 4, thorough)
 
 
-def map_h(view, nl, thorough=False):
+def resid_h(kind, view, nl, thorough=False):
+    B = []
+    for n in nl:
+        B.append("{")
+        B += ["    " + s for s in view_f64(view, n)]
+        B.append(f"    k_resid_{kind}::<_, _, {n}>(&va, &vb, any_window::<{n}>(1), any_mp::<{n}>());")
+        B.append("}")
+    add(f"c10_resid_{kind}_{view}_{ns(nl)}", B, max(nl) + 4, thorough)
+
+
+def vrank_h(view, nl, thorough=False):
     B = []
     for n in nl:
         B.append("{")
         B += ["    " + s for s in view_opt(view, n, True)]
-        B.append(f"    map_all::<_, {n}>(&v);")
+        B.append(f"    k_vrank::<_, {n}>(&v);")
         B.append("}")
-    add(f"c10_map_{view}_{ns(nl)}", B, max(nl) + 5, thorough)
+    add(f"c10_vrank_{view}_{ns(nl)}", B, max(nl) + 5, thorough)
+
+
+def quantile_h(view, nl, thorough=False):
+    B = []
+    for n in nl:
+        B.append("{")
+        B += ["    " + s for s in view_opt(view, n, True)]
+        B.append(f"    k_quantile::<_, {n}>(&v);")
+        B.append("}")
+    add(f"c10_quantile_{view}_{ns(nl)}", B, max(nl) + 5, thorough)
+
+
+def part_h(fn, view, n, tag, calls, thorough=False):
+    """calls: [(k, sort, rev)] concrete"""
+    B = view_opt(view, n, True)
+    for k, srt, rev in calls:
+        B.append(f"k_{fn}::<_, {n}>(&v, {k}, {str(srt).lower()}, {str(rev).lower()});")
+    add(f"c10_{fn}_{view}_{tag}_n{n}", B, n + 5, thorough)
 
 
 def empty_h(view):
-    wlo = 0 if view == "vec" else 1      # default bodies assert window > 0 (clean panic, see c10_panic_*)
+    wlo = 0 if view != "dv" else 1      # default bodies assert window > 0 (clean panic, see c10_panic_*)
     B = view_opt(view, 0, True)
-    if view == "vec":
+    if view != "dv":
         B.append("cmp_all::<_, 0>(&v, 0);")   # on DefView: clean panic, see c10_panic_cmp_empty_dv
     B.append(f"k_minmaxnorm::<_, 0>(&v, any_window::<0>({wlo}), any_mp::<0>());")
     B += view_f64(view, 0)
@@ -219,12 +263,43 @@ def w0_kernels(n, thorough=False):
     add(f"c10_w0_kernels_vec_n{n}", B, n + 4, thorough)
 
 
+def layer2():
+    for view in ("arr", "dv"):
+        for k in CMP:
+            cmp_h(k, view, [1, 2, 3])
+            cmp_h(k, view, [4], True)
+        minmaxnorm_h(view, [3]); minmaxnorm_h(view, [1, 2], True); minmaxnorm_h(view, [4], True)
+        for kind in ("mean", "std", "skew"):
+            resid_h(kind, view, [3]); resid_h(kind, view, [1, 2], True); resid_h(kind, view, [4], True)
+        vrank_h(view, [0, 1, 2]); vrank_h(view, [3]); vrank_h(view, [4], True)
+        quantile_h(view, [3]); quantile_h(view, [0, 1, 2], True); quantile_h(view, [4], True)
+        # varg_partition indexes the input with the sorted positions; vpartition works on a copy
+        part_h("argpartition", view, 3, "in", [(1, False, False), (1, True, True)])
+        part_h("argpartition", view, 3, "pad", [(3, True, False), (4, False, False)])
+        part_h("argpartition", view, 4, "in", [(0, True, False), (2, False, True)], True)
+        part_h("vpartition", view, 3, "mix", [(1, True, False), (3, True, True)], view == "dv")
+        empty_h(view)
+    for k in CMP:
+        cmp_h(k, "vec", [3], True)
+    minmaxnorm_h("vec", [3], True)
+    vrank_h("vec", [3], True)
+    part_h("argpartition", "vec", 3, "in", [(1, False, False), (1, True, True)], True)
+    w0_kernels(2)
+    add("c10_vrank_empty", ["let v: Vec<Option<i32>> = Vec::new();",
+                            "let _o: Vec<f64> = v.ts_vrank(any_window::<0>(0), any_mp::<0>(), kani::any(), kani::any());"],
+        4, should_panic=True)
+    add("c10_panic_tsrank_w0_vec", view_opt("vec", 2, True) + ["let _o: Vec<f64> = v.ts_vrank(0, any_mp::<2>(), kani::any(), kani::any());"],
+        6, should_panic=True)
+    add("c10_panic_cmp_empty_dv", view_opt("dv", 0, True) + ["let _o: Vec<f64> = v.ts_vmin(any_window::<0>(0), any_mp::<0>());"],
+        4, should_panic=True)
+
+
 def main():
     for path in (0, 1):
         # Vec: every length; Array1 (same fast-path text, other uget) and DefView (default bodies): N = 3 quick
         for nl in ([0, 1], [2], [3]):
             drv_main("vec", path, nl, False)
-            drv_main("nd", path, nl, nl != [3])
+            drv_main("nd", path, nl, nl != [2])      # Array1 at N = 3: 380-450 s measured
             drv_main("dv", path, nl, nl != [3])
         for be in ("vec", "nd", "dv"):
             drv_main(be, path, [4], True)
@@ -244,20 +319,7 @@ def main():
     for d in ("apply", "idx", "apply2", "idx2", "custom", "custom2"):
         panic_w0(d, "dv")
     panic_w0("custom2", "vec")
-    # layer 2
-    for view in ("vec", "dv"):
-        cmp_h(view, [1, 2]); cmp_h(view, [3]); cmp_h(view, [4], True)
-        num_h(view, [1, 2]); num_h(view, [3]); num_h(view, [4], True)
-        map_h(view, [0, 1, 2]); map_h(view, [3]); map_h(view, [4], True)
-        empty_h(view)
-    w0_kernels(2)
-    add("c10_vrank_empty", ["let v: Vec<Option<i32>> = Vec::new();",
-                            "let _o: Vec<f64> = v.ts_vrank(any_window::<0>(0), any_mp::<0>(), kani::any(), kani::any());"],
-        4, should_panic=True)
-    add("c10_panic_tsrank_w0_vec", view_opt("vec", 2, True) + ["let _o: Vec<f64> = v.ts_vrank(0, any_mp::<2>(), kani::any(), kani::any());"],
-        6, should_panic=True)
-    add("c10_panic_cmp_empty_dv", view_opt("dv", 0, True) + ["let _o: Vec<f64> = v.ts_vmin(any_window::<0>(0), any_mp::<0>());"],
-        4, should_panic=True)
+    layer2()
     out = ["// @generated by /verif/tools/gen_c10.py — do not edit by hand\n"] + [h[1] for h in H]
     open(OUT, "w").write("\n\n".join(out) + "\n")
     quick = sum('feature = "thorough"' not in h[1] for h in H)
